@@ -717,6 +717,24 @@ func (fc *FuncCtx) evalCall(env *Env, c ECall) Val {
 			parts = append(parts, fc.frameFormula(cm.comp, ref, env.st, fc.next(ref), locs))
 		}
 		return mathBool(and(parts...))
+	case "castas":
+		// castas(x, y): the generated _cast of x to the static type of y
+		need(2)
+		x, y := arg(0), arg(1)
+		if y.Ty == nil {
+			specFail("castas: second argument has no Go type")
+		}
+		for k, fs := range fc.V.funcsByKey {
+			if !strings.HasSuffix(k, "._cast") {
+				continue
+			}
+			for _, f := range fs {
+				if ta := f.TypeArgs(); len(ta) == 1 && types.Identical(ta[0], y.Ty) {
+					return fc.pureGoCall(f, []Val{x})
+				}
+			}
+		}
+		specFail("castas: no _cast instance for %s", y.Ty)
 	case "strlen":
 		need(1)
 		return mathInt("(strlen " + arg(0).T + ")")
